@@ -102,3 +102,45 @@ def num_of(ex, st, x: V) -> V:
 @spec('c05c_num')
 def c05c_num(ex, st, x):
     return num_of(ex, st, x)
+
+
+@spec('c05c_dict_wf')
+def c05c_dict_wf(ex, st, d):
+    """Representation invariant of a Python dict (its key list enumerates its domain once, insertion order) for an
+    OPTIONAL dict parameter: the core assumes it for parameters of type dict only.  Always true of a Python dict."""
+    from pyvc.vals import v_bool
+    if d.kind == 'dict':
+        st.assume_wf_dict(d)
+        return v_bool(True)
+    if d.kind == 'none':
+        return v_bool(True)
+    if d.kind != 'opt' or d.ty.args[0].kind != 'dict':
+        raise Unsupported('c05c_dict_wf of a non-dict')
+    inner = V(d.t, d.ty.args[0])
+    s2 = st.copy()
+    s2.pc = []
+    s2.guards, s2.bound = [], []
+    s2.assume_wf_dict(inner)
+    st.heap0.update({k: v for k, v in s2.heap0.items() if k not in st.heap0})
+    for k, v in s2.heap.items():
+        st.heap.setdefault(k, v)
+    return v_bool(z3.Implies(z3.Not(Val.is_none(d.t)), z3.And(*s2.pc)))
+
+
+@spec('c05c_inf')
+def c05c_inf(ex, st):
+    """numpy.inf (the engine's real constant INF), usable in modules that do not import numpy"""
+    return v_real(z3.Real('INF'))
+
+
+@spec('c05c_cut')
+def c05c_cut(ex, st, label, lam):
+    """CUT rule inside a postcondition of the function under verification: c05c_cut('name', lambda: fact).  `fact`
+    becomes a proof obligation of its own (kind `lemma`, proved from the current path) and is then available to the
+    rest of the clause.  At call sites (the clause is being assumed, not proved) nothing is evaluated."""
+    from pyvc.vals import v_bool
+    if ex.frame.depth == 0 and not st.bound and not st.guards and isinstance(label.lit, str):
+        f = ex.truth(st, ex.call(st, lam, [], {}, None))
+        ex.ctx.add_oblig(st, 'lemma', label.lit, f)
+        st.assume(f)
+    return v_bool(True)
